@@ -475,7 +475,7 @@ def models():
         ctx.ghost.setdefault('tokens', []).append(callee.rsplit('::', 1)[1])
         return ok(UNIT)
 
-    @reg(r'^<dyn std::io::Write as std::io::Write>::write_fmt$|^<Stdout as std::io::Write>::write_fmt$|^std::io::Write::write_fmt$|^<std::io::Stdout as std::io::Write>::write_fmt$')
+    @reg(r'^<dyn std::io::Write as (std::io::)?Write>::write_fmt$|^<Stdout as (std::io::)?Write>::write_fmt$|^std::io::Write::write_fmt$|^<std::io::Stdout as (std::io::)?Write>::write_fmt$')
     def write_fmt(ctx, args, callee):
         ctx.ghost.setdefault('tokens', []).append('write')
         return ok(UNIT)
